@@ -29,6 +29,7 @@ func runC17(r *Report, p *Program) {
 	c17R2(h)
 	c17R3(h)
 	c17R4(h)
+	c17R5(h)
 	c17Tables(h)
 }
 
